@@ -217,6 +217,14 @@ class C13(Prop):
                 for post in ["\u0392", "b", "B", "1", ""]:
                     yield ("canon_is_fold", {"s": pre + "\u03a3" + run + post})
                     yield ("canon_is_fold", {"s": pre + run + "\u03a3" + post})
+        # separator runs of every length up to 40, pure and mixed (a fixed chain of replace() calls, a bounded loop or a
+        # regex with a bounded quantifier condense only the lengths somebody thought of)
+        for n in range(1, 41):
+            for run in ("-" * n, "_" * n, "." * n, "".join(rng.choice(SEPS) for _ in range(n))):
+                s_ = rng.choice(WORDS) + run + rng.choice(WORDS)
+                yield ("canon_is_fold", {"s": s_})
+                if n % 3 == 0:
+                    yield ("idempotent", {"s": s_})
         ex = self._exhaustive(rng, 4)
         k = 0
         while True:
